@@ -88,10 +88,13 @@ class Gen:
         if kind == 2:       # while
             t1, p1 = self.body(d, i2)
             return self.ctl("while w(%d):" % k) + t1 + self.ctl("endwhile"), [ind + "while w(%d):" % k] + p1
-        if kind == 3:       # try / except / finally
+        if kind == 3:       # try / except (one or two clauses)
             t1, p1 = self.body(d, i2)
             tmpl = self.ctl("try:") + "${boom(%d)}\n" % k + t1 + self.ctl("except Boom:") + "x%d\n" % k
             py = [ind + "try:", i2 + "out.append(str(boom(%d)))" % k] + p1 + [ind + "except Boom:", i2 + "out.append('x%d')" % k]
+            if not self.simple and p.choose(2, "second_except_clause"):
+                tmpl += self.ctl("except KeyError:") + "y%d\n" % k
+                py += [ind + "except KeyError:", i2 + "out.append('y%d')" % k]
             return tmpl + self.ctl("endtry"), py
         t1, p1 = self.body(d, i2)      # with
         return self.ctl("with cm(%d) as v%d:" % (k, k)) + "${v%d}\n" % k + t1 + self.ctl("endwith"), \
@@ -155,7 +158,7 @@ def helpers(p):
 
     def boom(k):
         if flag("raise%d" % k):
-            raise Boom()
+            raise (KeyError("k") if flag("raise_keyerror%d" % k) else Boom())
         return ""
 
     class CM:
@@ -226,6 +229,8 @@ def on_grammar(p, r, exc, acc):
         acc.candidate(kind="control-flow", input=desc, detail="rendered %r (exception %r), python semantics give %r" % (got, r["exc"], r["ref"]))
     elif r["ev"] != r["ref_ev"]:
         acc.candidate(kind="evaluation-order", input=desc, detail="events %r, python semantics give %r" % (r["ev"], r["ref_ev"]))
+    elif len(r["tmpl"]) > 60:
+        acc.good("control-flow", desc)
     if len(acc.samples) < 6:
         acc.sample(dict(template=r["tmpl"], output=got))
 
@@ -244,7 +249,7 @@ def w(k):
     state[k] = state.get(k, 0) + 1
     return state[k] == 1 and flag("while%d" % k)
 def boom(k):
-    if flag("raise%d" % k): raise Boom()
+    if flag("raise%d" % k): raise (KeyError("k") if flag("raise_keyerror%d" % k) else Boom())
     return ""
 class CM:
     def __init__(self, k): self.k = k
@@ -266,7 +271,7 @@ got_ev = list(events); del events[:]
 state.clear()
 ns = dict(fns); ns["out"] = []
 try:
-    exec(compile(CASE["python"] + "\\\\n", "<reference>", "exec"), ns); want = "".join(ns["out"])
+    exec(compile(CASE["python"] + "\\n", "<reference>", "exec"), ns); want = "".join(ns["out"])
 except Exception as e:
     want = "raised %s" % type(e).__name__
 print("template:", got, got_ev); print("python  :", want, events)
@@ -292,4 +297,4 @@ def run(check, tier):
     check.section("templates generated from the control-structure grammar vs native Python", st, acc,
                   dict(depth={"quick": 0, "thorough": 1}[tier], indents=INDENTS, comments=COMMENTS), tags_required=("asserted",))
     cands = sorted(acc.candidates, key=lambda c: len(c["input"]["template"]) if c.get("input") else 0)
-    check.confirm(cands, make_replay, lambda c: None, max_confirm=12)
+    check.confirm(cands, make_replay, lambda c: None, max_confirm=12, goods=acc.goods)
